@@ -59,6 +59,19 @@ func latinList() []string {
 	return out
 }
 
+// pristine holds what every code of the named encodings decoded to before any font was built in this process.
+var pristine = func() map[string][256]string {
+	m := map[string][256]string{}
+	for _, name := range []string{"WinAnsiEncoding", "MacRomanEncoding", "StandardEncoding", "PDFDocEncoding", "SymbolEncoding", "ZapfDingbatsEncoding"} {
+		var t [256]string
+		for k := 0; k < 256; k++ {
+			t[k] = font.GetEncoding(name).DecodeString([]byte{byte(k)})
+		}
+		m[name] = t
+	}
+	return m
+}()
+
 var unknownNames = []string{".notdef", "g37", "glyph00012", "cid4711", "G0A", "nonexistentglyphname"}
 
 func (c DiffCase) assigned() map[int]string {
@@ -124,6 +137,13 @@ func checkDifferences(c DiffCase) error {
 			if err := goodText("Font.DecodeString", got); err != nil {
 				return err
 			}
+		}
+	}
+	// the font's own re-assignments are the font's: the named encoding every other font shares still decodes as
+	// it did when the process started
+	for k := range names {
+		if got, want := font.GetEncoding(base).DecodeString([]byte{byte(k)}), pristine[base][k]; got != want {
+			return fmt.Errorf("after a font with /Differences %v was built on %s, the named encoding itself decodes %#02x as %+q (it was %+q when the process started)", arr, base, k, got, want)
 		}
 	}
 	// the whole string decodes as its codes do, one after the other
